@@ -87,6 +87,7 @@ def run(ctx, replay):
     for s in scs:
         for st in s["steps"]:
             ctx.distinct.add(vlib.json.dumps({k: v for k, v in st.items() if k != "port"}, sort_keys=True))
+    ctx.extra["exchanges"] = sum(len(s["steps"]) for s in scs)
     ctx.samples.append({"scenario": {"id": scs[1]["id"], "steps": scs[1]["steps"][:4]}, "recorded_events": trs[scs[1]["id"]][:5]})
     return vlib.finish(ctx, "model_checking",
                        "a pure function: the model is the pair relation (equal tokens <=> equal addresses) over rendered peers; on the "
